@@ -3,6 +3,7 @@ package core
 import (
 	"fmt"
 	"log/slog"
+	"os"
 	"runtime/debug"
 	"sort"
 	"strings"
@@ -247,5 +248,9 @@ func sortedKeys(m map[string]int) []string {
 func init() {
 	// The code under test logs through slog.Default(); keep it out of stderr,
 	// which the harness captures for worker panic stacks.
+	if os.Getenv("VERIF_SLOG") != "" {
+		slog.SetDefault(slog.New(slog.NewTextHandler(os.Stdout, &slog.HandlerOptions{Level: slog.LevelDebug})))
+		return
+	}
 	slog.SetDefault(slog.New(slog.DiscardHandler))
 }
